@@ -65,6 +65,72 @@ def canon_target(repo: Repo, f: str, text: str) -> str:
     out = ast.unparse(T().visit(node))
     return re.sub(r"__p(\d+)__", r"<p\1>", out)
 
+
+def _call_sites(cg: CallGraph, parent: dict, callee: str):
+    for g in parent:
+        for tgt, node in cg.edges.get(g, []):
+            if tgt == callee and isinstance(node, ast.Call):
+                yield g, node
+
+
+def _substitute(repo: Repo, callee: str, call: ast.Call, target: str) -> str | None:
+    """Target text of a helper's effect (parameters as <pK>) rewritten with the actual arguments of one call."""
+    fn = repo.functions[callee]
+    params = [a.arg for a in fn.args.posonlyargs + fn.args.args + fn.args.kwonlyargs]
+    actual: dict[int, str] = {}
+    for i, a in enumerate(call.args):
+        if isinstance(a, ast.Starred):
+            return None
+        actual[i] = ast.unparse(a)
+    for kw in call.keywords:
+        if kw.arg is None or kw.arg not in params:
+            return None
+        actual[params.index(kw.arg)] = ast.unparse(kw.value)
+    out = target
+    for m in set(re.findall(r"<p(\d+)>", target)):
+        if int(m) not in actual:
+            return None
+        out = out.replace(f"<p{m}>", f"({actual[int(m)]})")
+    return out
+
+
+def lift(repo: Repo, cg: CallGraph, parent: dict, f: str, k: str, t: str, depth: int):
+    """The effect (f, k, t) as seen from f's callers: when t is built only from f's parameters, every call site
+    g -> f turns it into an effect of g on the actual argument (a write moved into a helper stays the same write)."""
+    if depth == 0 or not re.search(r"<p\d+>", t):
+        return
+    for g, call in _call_sites(cg, parent, f):
+        sub = _substitute(repo, f, call, t)
+        if sub is None:
+            continue
+        try:
+            node = ast.parse(sub, mode="eval").body
+        except SyntaxError:
+            continue
+        tg = canon_target(repo, g, ast.unparse(node))
+        yield (g, k, tg)
+        yield from lift(repo, cg, parent, g, k, tg, depth - 1)
+
+
+def lifted_ok(repo: Repo, cg: CallGraph, parent: dict, f: str, k: str, t: str, allowed: set, depth: int = 3) -> bool:
+    """An effect in an undocumented helper is fine when its target is one of the helper's own parameters and EVERY
+    call site in the command's reach passes a documented target (recursively, bounded depth)."""
+    if depth == 0 or not re.search(r"<p\d+>", t) or re.sub(r"<p\d+>", "", t).strip("()") != "":
+        return False
+    sites = list(_call_sites(cg, parent, f))
+    if not sites:
+        return False
+    for g, call in sites:
+        sub = _substitute(repo, f, call, t)
+        if sub is None:
+            return False
+        tg = canon_target(repo, g, sub)
+        if (g, k, tg) in allowed:
+            continue
+        if not lifted_ok(repo, cg, parent, g, k, tg, allowed, depth - 1):
+            return False
+    return True
+
 READ_ONLY_QUERIES = {
     "VCSStrategyGit": [["ls-files"], ["config"], ["status"], ["rev-parse"]],
     "VCSStrategyHg": [["status"], ["root"]],
@@ -98,14 +164,17 @@ def rule_reach(ck: Check, repo: Repo, cg: CallGraph) -> None:
                 r.violation(q, f"new command {name} has file-system effects", f"{found[0][:3]}: no documented effect set", repo.loc(fn))
             continue
         for f, k, t, node in found:
-            if (f, k, t) not in allowed:
+            if (f, k, t) not in allowed and not lifted_ok(repo, cg, parent, f, k, t, allowed):
                 chain = " -> ".join(x.split(".")[-1] for x in cg.chain(parent, f))
                 r.violation(q, f"`reuse {name}` can reach {k}({t}) in {f}",
                             f"undocumented file-system effect; call chain: {chain}", repo.loc(node),
                             {"chain": cg.chain(parent, f)})
         # the documented effects still exist where expected (a vanished writer means the table is stale)
+        seen_effects = {(f, k, t) for f, k, t, _ in found}
+        for f, k, t, _ in found:
+            seen_effects |= set(lift(repo, cg, parent, f, k, t, 3))
         for a in sorted(allowed):
-            if a not in {(f, k, t) for f, k, t, _ in found}:
+            if a not in seen_effects:
                 r.note(f"{name}: documented effect {a} not found (table may be stale)")
     # reach-set floor: the analysis must see the big commands' bodies
     if ck.extra["reach"].get("lint", 0) < 60 or ck.extra["reach"].get("annotate", 0) < 60:
@@ -115,7 +184,8 @@ def rule_reach(ck: Check, repo: Repo, cg: CallGraph) -> None:
         raise AnalysisError(f"too many unresolved calls ({len(cg.unresolved)}); the call graph is not trustworthy")
     ck.extra["unresolved_calls"] = [f"{q}: {t}" for q, t, _ in cg.unresolved]
     # positive control: the annotate writer is visible as an effect
-    if not any(e for e in cg.ext["reuse._annotate.add_header_to_file"] if effect_of(e[0], e[1])):
+    an_reach = cg.reachable(["reuse._annotate.add_header_to_file"])
+    if not any(effect_of(e[0], e[1]) for f in an_reach for e in cg.ext[f]):
         raise AnalysisError("C15-R1 positive control failed: the annotate writer is not recognised as an effect")
 
 
@@ -245,3 +315,6 @@ def run(ck: Check, repo: Repo) -> None:
     rule_spdx_output(ck, repo)
     rule_subprocess(ck, repo, cg)
     rule_provenance(ck, repo)
+    # 'download only adds new files': the exists() refusal dominates every write (same obligation as C19-R1)
+    from . import c19
+    c19.rule_put(ck, repo, "R5")
